@@ -117,6 +117,21 @@ func isZeroValue(v value) bool {
 }
 
 func (i *interpreter) binop(op token.Token, t types.Type, x, y value) value {
+	_, ssx := x.(symString)
+	_, ssy := y.(symString)
+	if ssx || ssy {
+		switch op {
+		case token.ADD:
+			xb, _ := strBytes(x)
+			yb, _ := strBytes(y)
+			return symString{b: append(append([]value(nil), xb...), yb...)}
+		case token.EQL:
+			return i.equals(t, x, y)
+		case token.NEQ:
+			return i.boolNot(i.equals(t, x, y))
+		}
+		panic(engineError{"unsupported operation on symbolic string: " + op.String()})
+	}
 	_, sx := x.(*Term)
 	_, sy := y.(*Term)
 	if !sx && !sy {
@@ -318,6 +333,9 @@ func (i *interpreter) slice(x, lo, hi, max value) value {
 	case string:
 		Len = len(x)
 		Cap = Len
+	case symString:
+		Len = len(x.b)
+		Cap = Len
 	case []value:
 		Len = len(x)
 		Cap = cap(x)
@@ -349,12 +367,17 @@ func (i *interpreter) slice(x, lo, hi, max value) value {
 	if _, isStr := x.(string); isStr {
 		m = int64(Len)
 	}
+	if _, isStr := x.(symString); isStr {
+		m = int64(Len)
+	}
 	if l < 0 || h < l || m < h || m > int64(Cap) {
 		panic(targetPanic{v: runtimeErr(fmt.Sprintf("slice bounds out of range [%d:%d:%d] with capacity %d", l, h, m, Cap))})
 	}
 	switch x := x.(type) {
 	case string:
 		return x[l:h]
+	case symString:
+		return symString{b: x.b[l:h]}
 	case []value:
 		return x[l:h:m]
 	case *value:
